@@ -5,7 +5,33 @@ import json, os, subprocess, sys
 ROOT = os.path.dirname(os.path.dirname(os.path.abspath(__file__)))
 
 # id -> (implemented, category, technique, level text, note, design_ref)
+W1 = "4 planners x 6 space families x generated worlds / parameters / seeds under the virtual clock, planner-RNG and scripted sample sequences (16 000 runs quick, 300 000 thorough; C03: 8 000 / 120 000)"
 CHECKS = {
+    "C01": (True, "exploration",
+            "runtime monitor at the validity-checker boundary: every state of every returned path re-evaluated with the pure validity function; invalid-start cases checked against the required error",
+            "Returned paths of " + W1 + " incl. starts marginally (0, 1 ulp, 1e-9) and deeply inside obstacles, goal regions overlapping / covered by obstacles and scripted samples exactly on obstacle boundaries are re-validated state by state. Holds on the executions observed.",
+            "Trusted: purity of the harness validity function; the world generator.",
+            "DESIGN.md section 5 C01"),
+    "C02": (True, "exploration",
+            "runtime oracle on returned paths: bit comparison of the first state with the installed start, goal predicate on the last state",
+            "Returned paths of " + W1 + " are checked for non-emptiness, bit-identical start and goal satisfaction; RRT-Connect assembly kinds (direct / junction) are counted.",
+            "Trusted: the goal predicate of the harness goal object.",
+            "DESIGN.md section 5 C02"),
+    "C03": (True, "exploration",
+            "offline checker over the recorded validity-query log: segment-coverage oracle (no gap above the longest valid segment between accepted on-segment queries) plus dense re-check",
+            "For every segment of every returned path of " + W1 + " (walls thicker than the resolution but thinner than the step, slivers, shells, resolution fractions 2e-3..1, steps up to 10x the extent) the recorded accepted queries must cover the segment; edge kinds (extension, RRT* parent choice, rewired, RRT-Connect junction, goal-tree, PRM link, PRM start connection) are counted and required to be observed.",
+            "Trusted: the space's own distance as the on-segment test (C09 judges it); antipodal endpoints are ambiguous.",
+            "DESIGN.md section 5 C03"),
+    "C04": (True, "exploration",
+            "runtime oracle on returned paths: independent bounds test, precondition (start / goal samples in bounds) taken from the event log",
+            "Returned paths of " + W1 + " on bounded spaces (boxes, angular intervals of every span, cones, compounds) are tested state by state with an independent bounds test. Non-convex angular regions are the known finding K-1 (keyed on the violating component kind).",
+            "Trusted: reference bounds test with 1e-9 / 1e-7 allowances.",
+            "DESIGN.md section 5 C04"),
+    "C05": (True, "exploration",
+            "runtime oracle on returned paths: consecutive-state distance against the configured limit",
+            "Returned paths of " + W1 + " with steps / radii from 1e-3x to 10x the diameter are checked segment by segment in the space's own metric.",
+            "Trusted: the space's own distance (C09).",
+            "DESIGN.md section 5 C05"),
     "C09": (True, "exploration",
             "runtime oracle over executed distance calls: metric axioms + independent reference on exhaustive lattice triples and seeded random triples",
             "Every distance call made by the workload (all ordered triples of a 56/110-value special lattice per space setting, plus 2e4/4e5 random triples, 28-74 space settings incl. compounds with weights 0/1e-3/1/50 and the erased *_dyn interface) is checked online against the metric axioms, the diameter bound, representation independence and an independent atan2-based reference. Exploration: holds on the executions observed, nothing more.",
